@@ -208,6 +208,34 @@ def _disable_sets(rel: str, cls_name: str) -> List[str]:
     raise Unrecognised(f"{cls_name}.disable never clears self.enabled")
 
 
+def _norm_body(fn: ast.FunctionDef) -> List[str]:
+    """meaning-bearing statements of a method, logging dropped (recursively), unparsed"""
+    class Strip(ast.NodeTransformer):
+        def generic_visit(self, node):
+            super().generic_visit(node)
+            for f in ("body", "orelse"):
+                b = getattr(node, f, None)
+                if isinstance(b, list):
+                    kept = [x for x in b if not _is_log(x)]
+                    setattr(node, f, kept or ([ast.Pass()] if f == "body" else []))
+            return node
+    tree = Strip().visit(ast.parse(ast.unparse(fn)))
+    return [ast.unparse(x) for x in tree.body[0].body if not _is_log(x)]
+
+
+def _wireless() -> tuple:
+    """(a) `WirelessAccessPoint.receive_frame` (wireless_router.py) has the statements of `RouterInterface.receive_frame` (router.py):
+    the access point of a wireless router is an interface of kind `router` in Model/Filter.lean; (b) `AirSpace.transmit` delivers to
+    the OTHER ENABLED interfaces OF THE SENDER'S FREQUENCY only; (c) `WirelessNetworkInterface.send_frame` starts with the enabled guard."""
+    wap = find_method(class_def(parse("simulator/network/hardware/nodes/network/wireless_router.py"), "WirelessAccessPoint"), "receive_frame")
+    rif = find_method(class_def(parse("simulator/network/hardware/nodes/network/router.py"), "RouterInterface"), "receive_frame")
+    same = _norm_body(wap) == _norm_body(rif)
+    air = class_def(parse(AIR), "AirSpace")
+    tr = [x for x in _norm_body(find_method(air, "transmit"))]
+    snd = _norm_body(find_method(class_def(parse(AIR), "WirelessNetworkInterface"), "send_frame"))
+    return same, tr, snd[:1]
+
+
 def _l(xs) -> str:
     return "[" + ", ".join('"' + x.replace('"', "'") + '"' for x in xs) + "]"
 
@@ -253,6 +281,11 @@ def wiredDisable : List String := {_l(_disable_sets(BASE, "WiredNetworkInterface
 /-- `WirelessNetworkInterface.enable` / `.disable` (airspace.py) -/
 def wirelessEnable : List String := {_l(_enable_guards(AIR, "WirelessNetworkInterface"))}
 def wirelessDisable : List String := {_l(_disable_sets(AIR, "WirelessNetworkInterface"))}
+/-- `WirelessAccessPoint.receive_frame` = `RouterInterface.receive_frame` statement for statement (logging aside) -/
+def wapReceiveIsRouterInterfaceReceive : Bool := {"true" if _wireless()[0] else "false"}
+/-- `AirSpace.transmit`; first statement of `WirelessNetworkInterface.send_frame` -/
+def airTransmit : List String := {_l([x.replace(chr(10), " ; ") for x in _wireless()[1]])}
+def wirelessSendGuard : List String := {_l([x.replace(chr(10), " ; ") for x in _wireless()[2]])}
 /-- every definition of a translated method under simulator/network -/
 def definers : List String := {_l(_overriders())}
 end Primaite.Gen.FilterPower
